@@ -49,6 +49,14 @@ class CleanPass(FunctionPass):
             if block in predecessors:
                 continue
 
+            # Do not remove if a predecessor also jumps directly to the
+            # successor, phi nodes there need one value per incoming block:
+            target = block.last_instruction.target
+            if target.phis and any(
+                p in target.predecessors for p in predecessors
+            ):
+                continue
+
             # Update successor incoming blocks:
             for successor in successors:
                 successor.replace_incoming(block, predecessors)
